@@ -933,13 +933,31 @@ fn all_strings(alphabet: &[u8], maxlen: usize) -> Vec<Vec<u8>> {
     all
 }
 
+/// `pump` never panics (C08): every op may run while the thread is unwinding (track traits).
+impl crate::unwind::Probe for ChunkerExec {
+    fn unwind_safe(&self, _w: &[&str]) -> bool {
+        true
+    }
+}
+
+/// `next_record_bytes` trips a documented assertion when the judge answers SkipRecord on an empty
+/// range: `next` / `nextall` are wrapped only under the always-KeepGoing judge.
+impl crate::unwind::Probe for ReaderExec {
+    fn unwind_safe(&self, w: &[&str]) -> bool {
+        match w {
+            ["next"] | ["nextall", ..] => matches!(self.judge, JudgeSpec::KeepGoing),
+            _ => true,
+        }
+    }
+}
+
 impl Family for ChunkerFamily {
     fn name(&self) -> &'static str {
         "chunker"
     }
 
     fn new_exec(&self) -> Box<dyn Exec> {
-        Box::new(ChunkerExec::new())
+        crate::unwind::UnwindExec::boxed(ChunkerExec::new)
     }
 
     /// Every stream over {FE, FD, 01, 61} up to length 5 (6 thorough) x block sizes
@@ -995,6 +1013,12 @@ impl Family for ChunkerFamily {
             ops.push(format!("drain {} 1", stream.len() + nev + 4));
         }
         clone_ops::splice(rng, &mut ops, "pump", "drain");
+        // track traits: calls made while the thread is unwinding; the same history owned by a scope that panics
+        if rng.chance(1, 5) {
+            ops = crate::unwind::sprinkle(rng, ops, 1, 2, |_| true);
+        } else if !long && rng.chance(1, 10) {
+            ops = vec![format!("scoped_panic {}", ops.join(" ; "))];
+        }
         ops
     }
 }
@@ -1007,7 +1031,7 @@ impl Family for ReaderFamily {
     }
 
     fn new_exec(&self) -> Box<dyn Exec> {
-        Box::new(ReaderExec::new())
+        crate::unwind::UnwindExec::boxed(ReaderExec::new)
     }
 
     /// Every stream over {FE, FD, 00, 01, 61} up to length 5 x block sizes
@@ -1132,6 +1156,14 @@ impl Family for ReaderFamily {
             ops.push(format!("nextall {} 1", nseg + nev + 3));
         }
         clone_ops::splice(rng, &mut ops, "next", "nextall");
+        // track traits: calls made while the thread is unwinding (`next` / `nextall` only under the
+        // KeepGoing judge: the executor refuses them otherwise); the same history owned by a scope that panics
+        let keepgoing = !ops.iter().any(|o| o.starts_with("judge std") || o.starts_with("judge list"));
+        if rng.chance(1, 5) {
+            ops = crate::unwind::sprinkle(rng, ops, 1, 2, |o| keepgoing || !o.starts_with("next"));
+        } else if stream.len() < 20000 && rng.chance(1, 10) {
+            ops = vec![format!("scoped_panic {}", ops.join(" ; "))];
+        }
         ops
     }
 }
